@@ -17,6 +17,9 @@ enum Ev {
     Out(u8),
     Pop(usize),
     Drain,
+    /// the host switches the AY chip's contribution on or off (Emulator::set_ay_enabled) — a silent chip adds
+    /// nothing, so the beeper samples, the queue and the speaker level are what they were
+    Ay(bool),
 }
 
 #[derive(Clone, Copy, Debug, PartialEq)]
@@ -64,6 +67,7 @@ impl Case {
                         Ev::Out(v) => format!("o{:02x}", v),
                         Ev::Pop(n) => format!("p{}", n),
                         Ev::Drain => "d".to_string(),
+                        Ev::Ay(b) => format!("a{}", *b as u8),
                     })
                     .collect::<Vec<_>>()
                     .join(",")
@@ -102,6 +106,7 @@ impl Case {
                             "w" => Ev::Wait(r.parse().ok()?),
                             "o" => Ev::Out(u8::from_str_radix(r, 16).ok()?),
                             "p" => Ev::Pop(r.parse().ok()?),
+                            "a" => Ev::Ay(r == "1"),
                             _ => Ev::Drain,
                         });
                     }
@@ -307,6 +312,11 @@ fn check_case(model: &mut Model, c: &Case, mut rep: Option<&mut Report>) -> Opti
                 total_popped += codes.len();
                 lines.push("d".into());
                 chks.push(Chk::Pop { ev: i, codes, bad_value: bad, spec: None });
+            }
+            Ev::Ay(b) => {
+                if catch_unwind(AssertUnwindSafe(|| e.set_ay_enabled(*b))).is_err() {
+                    return Some(dis(Kind::SpecViolated, "C19/panic", Some(i), "set_ay_enabled panicked".into(), "panic".into(), "no panic".into()));
+                }
             }
         }
         // the frame that ended during this event: (level at its start, its writes)
@@ -568,6 +578,9 @@ fn gen_case(r: &mut Rng, m128: bool, rate: usize, policy: Policy, frames: usize)
         if fc >= l {
             fc -= l;
             done += 1;
+            if r.chance(1, 6) {
+                evs.push(Ev::Ay(r.bool()));
+            }
             if policy == Policy::Sometimes {
                 match r.below(4) {
                     0 => evs.push(Ev::Drain),
@@ -868,7 +881,7 @@ pub fn run(o: &Opts) -> Report {
     let mut rep = Report::new("C19");
     rep.rule = "(A) hook-driven schedules on a real Emulator (48K and 128K, sound on): random waits (1..30 CPU-like, up to 400, up to 3000, \
 some landing exactly on the frame end) interleaved with OUTs to port 0xFE (ear/mic toggles, bursts inside one sample period) at 7 sample \
-rates x 3 host policies (drain at every boundary / random pops and drains / never) x volumes 0..255 x beeper on/off x AY enabled (silent); \
+rates x 3 host policies (drain at every boundary / random pops and drains / never) x volumes 0..255 x beeper on/off x AY enabled (silent), the host switching the AY contribution on/off at frame boundaries (set_ay_enabled); \
 every popped sample is decoded to its beeper level and compared with the Lean model; the spec adjudicates: exactly floor(rate/50) samples \
 per frame (always), queue < 2*spf (never), every sample equals a speaker level within one sample period of k/spf, |sample| <= 0.6*vol/200. \
 (B) a real Z80 program toggling the speaker, run by emulate_frames (FrameCount(1)) and drained after every call: counts exactly, edge times \
@@ -931,6 +944,24 @@ distinct = (machine, rate, policy, volume class, beeper, ay, frames with writes)
                         } else {
                             rep.count("repeat_violations", d.key.clone());
                         }
+                    }
+                }
+            }
+        }
+    }
+    // (A2) speaker writes placed around the frame end (the OUT begins 12..1 T before it, at it, after it), host
+    // draining at every boundary: the write that lands just behind the boundary finds a queue holding a whole frame
+    for m128 in [false, true] {
+        let l = if m128 { 70908 } else { 69888 };
+        for rate in [8000usize, 44100, 48000] {
+            for k in 0..=14usize {
+                let c = Case {
+                    m128, rate, vol: 100, beeper: true, ay: false, policy: Policy::Always, port: 0x00FE,
+                    evs: vec![Ev::Wait(l + 2 - k), Ev::Out(0x10), Ev::Wait(l), Ev::Out(0x00), Ev::Wait(l + k), Ev::Out(0x18), Ev::Wait(2 * l)],
+                };
+                if let Some(d) = check_case(&mut model, &c, Some(&mut rep)) {
+                    if !rep.has_key(&d.key) {
+                        record(&mut model, &mut rep, c.text(), d);
                     }
                 }
             }
